@@ -21,6 +21,7 @@ type Profile struct {
 	Generics      bool // generic helper functions and generic unions
 	Buf           bool // buf.Buffer episodes
 	Dict          bool // dict.Dict episodes
+	ReturnedFns   bool // prelude functions that return functions (mkAdd, mkShow) and their uses
 	RecursiveTys  bool
 	LowerFields   bool // records with lower-case field names (values of such records are never printed with %v)
 	Equality      bool // boost = / <> on composite values
@@ -38,7 +39,7 @@ type Profile struct {
 }
 
 var Full = Profile{Name: "full", Probes: true, Lambdas: true, LocalFuncs: true, StringMatch: true, Interp: true, MulDiv: true, Tuple3: true,
-	Generics: true, Buf: true, Dict: true, RecursiveTys: true, MaxUnits: 8, MaxDepth: 4, AnnotateAll: true}
+	Generics: true, Buf: true, Dict: true, ReturnedFns: true, RecursiveTys: true, MaxUnits: 8, MaxDepth: 4, AnnotateAll: true}
 
 // FuncSig is a callable known to the generator.
 type FuncSig struct {
@@ -735,6 +736,13 @@ func (g *Gen) boolExpr(sc *scope, depth int) *Expr {
 }
 
 func (g *Gen) intLib(sc *scope, depth int) *Expr {
+	if g.P.ReturnedFns && g.chance(1, 8, "returnedFn") {
+		// a function returned by a fully applied call, used as a pipe stage or applied at once
+		g.label("function returned by a call used as a pipe stage")
+		g.curRefs["prelude:mkAdd"] = true
+		stage := Call("mkAdd", TFunc([]*Type{TInt}, TInt), Int(int64(g.intn(9, "mkAddK"))))
+		return &Expr{K: "pipe", T: TInt, Args: []*Expr{g.expr(sc, TInt, depth-1), stage}}
+	}
 	switch g.intn(6, "intLib") {
 	case 0:
 		return Call("strings.Length", TInt, g.expr(sc, TString, depth-1))
@@ -1260,6 +1268,16 @@ func (g *Gen) genericCall(sc *scope, t *Type, depth int) *Expr {
 
 // unitExpr: an inline expression of type unit (an effect).
 func (g *Gen) unitExpr(sc *scope, depth int) *Expr {
+	if g.P.ReturnedFns && g.chance(1, 8, "returnedUnitFn") {
+		g.curRefs["prelude:mkShow"] = true
+		stage := Call("mkShow", TFunc([]*Type{TInt}, TUnit), Str([]string{"s", "tag", ""}[g.intn(3, "mkShowTag")]))
+		if g.chance(1, 3, "returnedUnitFnIter") {
+			g.label("unit function returned by a call handed to slice.Iter")
+			return Call("slice.Iter", TUnit, stage, g.expr(sc, TSlice(TInt), depth))
+		}
+		g.label("unit function returned by a call used as a pipe stage")
+		return &Expr{K: "pipe", T: TUnit, Args: []*Expr{g.expr(sc, TInt, depth), stage}}
+	}
 	switch g.intn(4, "unitKind") {
 	case 0:
 		return Call("frt.Println", TUnit, g.expr(sc, TString, depth))
